@@ -235,7 +235,7 @@ func headerArg(w *cliWorld) string {
 // part of the modelled space because a result may have both.
 func H_cli_gen() {
 	w := setupCLI(vParam("pkgs", 2))
-	cmd := &genCmd{headerFile: headerArg(w), prefixFileName: "", tags: ""}
+	cmd := &genCmd{headerFile: headerArg(w), prefixFileName: "", tags: []string{"", "sometag other"}[vConc(vInt("tags", 0, 1))]}
 	if vConcBool(vBool("withPrefix")) {
 		cmd.prefixFileName = "zz_"
 	}
@@ -293,7 +293,7 @@ func H_cli_gen() {
 		}
 	}
 	if reached {
-		vA("C17", w.prefixSeen == cmd.prefixFileName && w.tagsSeen == cmd.tags, "options are passed through to generation")
+		vA("C17,C18", w.prefixSeen == cmd.prefixFileName && w.tagsSeen == cmd.tags, "options (prefix, tags) are passed through to generation, with or without a header file")
 		if w.headerGiven {
 			vA("C17", w.headerSeen == "// header\n", "header file content is passed through")
 		}
@@ -308,7 +308,7 @@ func H_cli_gen() {
 
 func H_cli_diff() {
 	w := setupCLI(vParam("pkgs", 2))
-	cmd := &diffCmd{headerFile: headerArg(w), tags: ""}
+	cmd := &diffCmd{headerFile: headerArg(w), tags: []string{"", "sometag other"}[vConc(vInt("tags", 0, 1))]}
 	status := cmd.Execute(nil, new(flag.FlagSet))
 
 	trouble := vOr(w.getwdFails, vOr(vAnd(w.headerGiven, vNot(w.headerOK)), w.loadErr))
@@ -321,6 +321,9 @@ func H_cli_diff() {
 	vA("C17", vImplies(vNot(trouble), vIff(status == subcommands.ExitStatus(1), differs)), "diff exits 1 exactly when some on-disk file differs from or lacks the generated content")
 	vA("C17,C18", vImplies(vAnd(vNot(trouble), vNot(differs)), status == subcommands.ExitSuccess), "diff exits 0 when every file equals what gen would write")
 	vA("C17", len(w.writes) == 0 && len(w.removed) == 0, "diff never modifies the tree")
+	if w.generateCalled > 0 {
+		vA("C17,C18", w.tagsSeen == cmd.tags, "diff passes the user's tags through to generation, with or without a header file")
+	}
 	switch status {
 	case subcommands.ExitSuccess:
 		vCover("diff-exit0")
